@@ -555,7 +555,7 @@ impl RefEndpoint {
             Event::SetUuid(u) => self.uuid = *u,
             Event::SetEidReq(v) => self.eid_req = *v,
             Event::SetEidResp(v) => self.eid_resp = *v,
-            Event::Process(_) | Event::Decode(_) | Event::GetLength(_) => {}
+            Event::Process(_) | Event::Decode(_) | Event::GetLength(_) | Event::Encode { .. } => {}
         }
     }
 }
